@@ -97,9 +97,9 @@ Section RunLog.
   Proof.
     induction fl as [|r rest IH]; intros L mk3 Hok Hr Hx; [reflexivity|].
     cbn [map rflat] in Hr. cbn [xok xlog run_log] in *.
-    pose proof (wsim_items rsym_o (f_new r) (rlist (f_old r)) mk3) as Hi.
-    pose proof (ring_sync rsym_o (f_new r) (rlist (f_old r)) mk3 (L ++ tree_ops r) Hok) as Hs. cbv zeta in Hs.
-    destruct (ring_items rsym_o (proj3 mk3) (rlist (f_old r))) as [mk1 rs]. cbn [fst snd] in *.
+    pose proof (wsim_items rsym_o (f_new r) (rlist (f_old r)) false mk3) as Hi.
+    pose proof (ring_sync rsym_o (f_new r) (rlist (f_old r)) false mk3 (L ++ tree_ops r) Hok) as Hs. cbv zeta in Hs.
+    destruct (ring_items rsym_o false (proj3 mk3) (rlist (f_old r))) as [mk1 rs]. cbn [fst snd] in *.
     destruct (wsim (f_new r) mk3 (rlist (f_old r))) as [mk3a cl]. cbn [fst] in Hi. subst mk1.
     destruct (rflat rlist rsym_o (proj3 mk3a) (map f_old rest)) as [lr mkr] eqn:Er. cbn [fst] in Hr.
     inversion Hr as [[Hr1 Hr2]]. 
